@@ -92,6 +92,12 @@ type Options struct {
 	WalDir string
 	// GenesisTime: time of block 0; block h gets GenesisTime + h. Default DefaultGenesisTime.
 	GenesisTime uint64
+	// ValidatorsAt, if set, stands in for the candidate/white-list contracts: a non-nil result for height h replaces the
+	// validator list that app.CommitBlock (in Commit) AND app.GetValidators(h) (in the start-up recipe's "rebuild status"
+	// path) hand to BlockExecutor.ApplyBlock for block h. Being a pure function of the height it gives the same answer
+	// before and after a restart, as the contracts would; InjectValidators does not survive one. It takes precedence over
+	// InjectValidators. Replica, Restart and RestartOn inherit it. Default nil: the application's own (empty) list.
+	ValidatorsAt func(height uint64) []*types.Validator
 }
 
 // DefaultMempoolConfig is config.DefaultMempoolConfig() with broadcasting off, a small broadcast queue and no
@@ -615,6 +621,11 @@ func (c *Chain) commit(b *types.Block, parts *types.PartSet, seen *types.Commit,
 	if c.injectVals != nil {
 		validators, c.injectVals = c.injectVals, nil
 	}
+	if c.opts.ValidatorsAt != nil {
+		if v := c.opts.ValidatorsAt(b.Height); v != nil {
+			validators = v
+		}
+	}
 	old := c.status
 	newStatus, err := c.blockExec.ApplyBlock(c.status.Copy(), id, b, validators)
 	if err != nil {
@@ -689,8 +700,16 @@ func (c *Chain) finishStep(b *types.Block, parts *types.PartSet) error {
 // Replica builds an independent chain with the same options and genesis (own databases, own WAL directory)
 // and brings it to the same height by executing wire copies of this chain's blocks (CheckBlock + Commit with
 // the seen commits of this chain). It is NOT attached.
-func (c *Chain) Replica() (*Chain, error) {
+//
+// The replica's databases are plain kv.NewCopyDB()s, NOT Options.NewDB: a factory that hands out named devices (a
+// kv.Recorder returns the SAME device for the same name) would make the replica write into this chain's databases.
+// Use ReplicaOn to choose the devices.
+func (c *Chain) Replica() (*Chain, error) { return c.ReplicaOn(nil) }
+
+// ReplicaOn is Replica with the replica's databases created by newDB (nil: kv.NewCopyDB()).
+func (c *Chain) ReplicaOn(newDB func(name string) dbm.DB) (*Chain, error) {
 	o := c.opts
+	o.NewDB = newDB
 	o.WalDir = "" // never share the undo log
 	r, err := New(o)
 	if err != nil {
